@@ -870,6 +870,7 @@ class Parser(object):
                 node = nodes.FilterBlock(lineno=token.lineno)
                 node.filter = nodes.Filter(None, 'lineprefix', [nodes.Const(prefix)], [], None, None, lineno=token.lineno)
                 node.body = rv
+                node.autoindent = True
             else:
                 node = nodes.Filter(rv, 'lineprefix', [nodes.Const(prefix)], [], None, None, lineno=token.lineno)
             return node
@@ -918,5 +919,13 @@ class Parser(object):
     def parse(self):
         """Parse the whole template into a `Template` node."""
         result = nodes.Template(self.subparse(), lineno=1)
+        if result.find(nodes.Extends) is not None:
+            # A block at the top level of a child template is not rendered where its tag is written: an auto-indent
+            # wrapper around the tag would render the block a second time, in front of the parent's layout (and before
+            # the parent's blocks are known). Prefix the block's own body instead.
+            for i, node in enumerate(result.body):
+                if getattr(node, 'autoindent', False) and len(node.body) == 1 and isinstance(node.body[0], nodes.Block):
+                    result.body[i], node.body = node.body[0], node.body[0].body
+                    result.body[i].body = [node]
         result.set_environment(self.environment)
         return result
